@@ -285,7 +285,10 @@ private:
       hash = harris_michael_hash_map::hash{}(value.first);
     }
     [[nodiscard]] hash_t get_hash() const { return hash; }
-    [[nodiscard]] bool greater_or_equal(hash_t h, const Key& key) const { return hash >= h && value.first >= key; }
+    // the nodes of a bucket are ordered lexicographically by (hash, key)
+    [[nodiscard]] bool greater_or_equal(hash_t h, const Key& key) const {
+      return hash > h || (hash == h && value.first >= key);
+    }
   };
 
   using data_t = std::conditional_t<memoize_hash, data_with_hash, data_without_hash>;
